@@ -185,29 +185,34 @@ Print Assumptions C18_funcprime_source_is_derivative.
    l.226-227), whatever the draw and the power function; and the body of _merge_log16 / _merge_log8's cell loop stores
    uint_maxval when the decoded sum is above num_reserved and >= max_count (l.1117-1118 / l.1716-1717), whatever the
    logarithm does (c2v := the decode table) *)
-From Sketchnu Require KernelsLog KernelTieLogCounter KernelTieLogMerge.
-Theorem C18_log_source_tie :
-  (forall (fpow : float -> float -> float) (base r : float) (nr umax c : Z),
-     0 <= umax < 2^16 -> umax <= c < 2^16 -> KernelsLog.gen_log_counter_step fpow base r c nr umax = None) /\
-  (forall (nr umax max_count : Z) (decode : Z -> float) (logq : float -> float) (base : float) (mine other : Z),
-     let v := (decode mine + decode other)%float in
-     0 <= mine < 2^16 -> 0 <= other < 2^16 ->
-     PrimFloat.leb v (CmsLog.z2f nr) = false -> PrimFloat.leb (CmsLog.u64_to_float max_count) v = true ->
-     (0 <= nr < 2^16 -> 0 <= umax < 2^16 ->
-      KernelsLog.gen_merge_log16_cell (KernelTieLogMerge.c2v_of decode) logq base mine other max_count umax nr = umax) /\
-     (0 <= nr < 2^8 -> 0 <= umax < 2^8 ->
-      KernelsLog.gen_merge_log8_cell (KernelTieLogMerge.c2v_of decode) logq base mine other max_count umax nr = umax)).
-Proof.
-  exact (conj (fun fpow base r nr umax c => KernelTieLogCounter.tie_log_counter_ceiling fpow base nr umax r c)
-              KernelTieLogMerge.tie_merge_log_saturates).
-Qed.
-Print Assumptions C18_log_source_tie.
+From Sketchnu Require KernelsLog KernelTieLogCounter.
+Theorem C18_log_counter_source_tie :
+  forall (fpow : float -> float -> float) (base r : float) (nr umax c : Z),
+    0 <= umax < 2^16 -> umax <= c < 2^16 -> KernelsLog.gen_log_counter_step fpow base r c nr umax = None.
+Proof. exact (fun fpow base r nr umax c => KernelTieLogCounter.tie_log_counter_ceiling fpow base nr umax r c). Qed.
+Print Assumptions C18_log_counter_source_tie.
 
-Example C18_log_source_tie_nonvacuous :
+Example C18_log_counter_source_tie_nonvacuous :
+  map (fun c => KernelsLog.gen_log_counter_step (fun _ _ => nan) nan nan c 15 255) [255; 256; 65535] = [None; None; None] /\
+  KernelsLog.gen_log_counter_step (fun _ _ => nan) nan nan 14 15 255 = Some (15, 0).
+Proof. vm_compute. split; reflexivity. Qed.
+
+From Sketchnu Require KernelTieLogMerge.
+Theorem C18_log_merge_source_tie :
+  forall (nr umax max_count : Z) (decode : Z -> float) (logq : float -> float) (base : float) (mine other : Z),
+    let v := (decode mine + decode other)%float in
+    0 <= mine < 2^16 -> 0 <= other < 2^16 ->
+    PrimFloat.leb v (CmsLog.z2f nr) = false -> PrimFloat.leb (CmsLog.u64_to_float max_count) v = true ->
+    (0 <= nr < 2^16 -> 0 <= umax < 2^16 ->
+     KernelsLog.gen_merge_log16_cell (KernelTieLogMerge.c2v_of decode) logq base mine other max_count umax nr = umax) /\
+    (0 <= nr < 2^8 -> 0 <= umax < 2^8 ->
+     KernelsLog.gen_merge_log8_cell (KernelTieLogMerge.c2v_of decode) logq base mine other max_count umax nr = umax).
+Proof. exact KernelTieLogMerge.tie_merge_log_saturates. Qed.
+Print Assumptions C18_log_merge_source_tie.
+
+Example C18_log_merge_source_tie_nonvacuous :
   let dc := fun c => CmsLog.z2f (if c <=? 2 then c else 2 ^ (c - 2) + 1) in
   let junk := fun _ : float => nan in
-  map (fun c => KernelsLog.gen_log_counter_step (fun _ _ => nan) nan nan c 15 255) [255; 256; 65535] = [None; None; None] /\
-  KernelsLog.gen_log_counter_step (fun _ _ => nan) nan nan 14 15 255 = Some (15, 0) /\
   (PrimFloat.leb (dc 6 + dc 0) (CmsLog.z2f 2), PrimFloat.leb (CmsLog.u64_to_float 17) (dc 6 + dc 0)) = (false, true) /\
   map (fun ab => KernelsLog.gen_merge_log8_cell (KernelTieLogMerge.c2v_of dc) junk nan (fst ab) (snd ab) 17 6 2) [(6, 0); (5, 5); (6, 6)]
   = [6; 6; 6] /\
